@@ -13,12 +13,19 @@ CLAIMED = {
         technique="contract-based deductive verification: symbolic execution of the real Python source against sidecar contracts, VCs discharged by z3 (cvc5 for unknowns)",
         design="3/C01",
     ),
+    "C05": dict(
+        category="proof",
+        text="Contracts on distance_to_edge, make_edge_maps, make_pafs, make_multi_pafs (loop invariant over a ghost fold-sum), get_edge_points and generate_pafs. Proved for all shapes/strides/sigmas/NaN patterns: each animal's field is the unit vector source->destination times a weight in [0,1] that is non-increasing in the distance and (for edges of length >= 1 px) 1 on the segment; NaN-endpoint and zero-length edges contribute exactly 0; the output is the sum over the kept animals (induction lemma: sum over selected rows == masked sum over all animals), never NaN/inf, shape (2E, ceil(H/s), ceil(W/s)) with channels edge0.x, edge0.y, ...; animals kept have a node strictly inside the image.",
+        note="floats as extended reals; generic real-arithmetic lemmas proved in isolation and instantiated explicitly; known finding C05/short-edge (edges shorter than 1 px) is carved out by the hypothesis |dst-src|^2 >= 1 and re-confirmed against the real code from a committed witness on every run; PartAffinityFieldsGenerator DataPipe covered under C18.",
+        technique="contract-based deductive verification: symbolic execution of the real Python source against sidecar contracts, loop invariant + ghost fold-sum, VCs discharged by z3 (cvc5 for unknowns)",
+        design="3/C05",
+    ),
 }
 
 NOT_APPLICABLE = {
     "C19": "no pre/postcondition on a function of this repository expresses it: training completion, artifacts and crash-point file contents live in Lightning/wandb/OmegaConf and the file system (DESIGN.md section 5)",
 }
-NOT_BUILT = ["C02", "C03", "C04", "C05", "C06", "C07", "C08", "C09", "C10", "C11", "C12", "C13", "C14", "C15", "C16", "C17", "C18", "C20"]
+NOT_BUILT = ["C02", "C03", "C04", "C06", "C07", "C08", "C09", "C10", "C11", "C12", "C13", "C14", "C15", "C16", "C17", "C18", "C20"]
 
 
 def main():
